@@ -178,6 +178,19 @@ def consume(body, uses, tr, local, depth=0, chain=()):
                     out.extend(consume(body, uses, tr, dest["l"], depth + 1, chain))
                 else:
                     out.append(Consumption("STORED", "stored into a field", None, chain))
+            elif rv["k"] == "aggregate" and rv.get("agg") == "tuple" and "p" not in dest:
+                # `let (result, x) = (call(), y);` — a tuple that is only taken apart again: follow the component
+                idx_in = [i for i, o in enumerate(rv["ops"]) if o is op]
+                followed = False
+                for u2 in uses.of(dest["l"]):
+                    if u2[0] == "rv" and u2[4]["k"] == "use":
+                        pl = u2[5]["p"]
+                        prj = pl.get("p", [])
+                        if len(prj) == 1 and prj[0].get("k") == "field" and prj[0].get("i") in idx_in and "p" not in u2[3]:
+                            out.extend(consume(body, uses, tr, u2[3]["l"], depth + 1, chain))
+                            followed = True
+                if not followed:
+                    out.append(Consumption("STORED", "stored into a tuple that is not taken apart", None, chain))
             elif rv["k"] == "aggregate":
                 out.append(Consumption("STORED", "stored into an aggregate", None, chain))
             else:
@@ -185,13 +198,23 @@ def consume(body, uses, tr, local, depth=0, chain=()):
         elif k == "ref":
             _k, b, idx, dest, rv, pl = x
             if "p" not in dest and not pl.get("p"):
-                out.extend(consume(body, uses, tr, dest["l"], depth + 1, chain))
+                for c in consume(body, uses, tr, dest["l"], depth + 1, chain):
+                    # `if let Ok(v) = &result { … }` looks at the value through a reference: the owner still has to consume it
+                    if c.kind.startswith("MATCH"):
+                        c = Consumption("INSPECT:" + c.kind, c.detail, c.where, c.chain)
+                    out.append(c)
         elif k == "discr":
             _k, b, idx, dest, rv, pl = x
             # find the switch on that discriminant
             out.append(match_consumption(body, uses, tr, local, b, dest, chain))
     if not out:
         out.append(Consumption("DROPPED", "only payload reads", chain=chain))
+    if depth == 0:
+        owned = [c for c in out if not c.kind.startswith("INSPECT:") and c.kind != "NOISE"]
+        if owned:
+            out = [c for c in out if not c.kind.startswith("INSPECT:")]        # inspected by reference, then really consumed
+        else:
+            out = [Consumption(c.kind.split(":", 1)[1], c.detail, c.where, c.chain) if c.kind.startswith("INSPECT:") else c for c in out]
     return out
 
 
@@ -560,12 +583,6 @@ def _handler_calls(prog, body, pred):
 
 
 def run_e2p(prog, rep):
-    # audit of the program as written: no helper inlining / loop desugaring (see facts.Program.raw)
-    with prog.raw():
-        return _run_e2p(prog, rep)
-
-
-def _run_e2p(prog, rep):
     """poll placement obligations (C11)"""
     found = 0
     used_polls = set()
